@@ -10,14 +10,14 @@ Definition contained (q : cquirks) (e : exc) : bool :=
 Definition value_family (e : exc) : bool := smem "ValueError" (mro e).
 
 Lemma ideal_contains_all : forall q e, q_value_error_escapes q = false -> contained q e = true.
-Proof. intros [v] e H. cbn in H. subst v. destruct e; vm_compute; reflexivity. Qed.
+Proof. intros [v f] e H. cbn in H. subst v. destruct e; vm_compute; reflexivity. Qed.
 
 (* the table found in the source lets exactly the ValueError family through *)
 Lemma actual_contains_iff : forall q e, q_value_error_escapes q = true -> contained q e = negb (value_family e).
-Proof. intros [v] e H. cbn in H. subst v. destruct e; vm_compute; reflexivity. Qed.
+Proof. intros [v f] e H. cbn in H. subst v. destruct e; vm_compute; reflexivity. Qed.
 
 Lemma non_value_contained : forall q e, value_family e = false -> contained q e = true.
-Proof. intros [[|]] e H; destruct e; vm_compute in H |- *; congruence. Qed.
+Proof. intros [[|] f] e H; destruct e; vm_compute in H |- *; congruence. Qed.
 
 Lemma escaping_is_value_family : forall q e, contained q e = false -> value_family e = true.
 Proof. intros q e H. destruct (value_family e) eqn:V; [reflexivity|]. rewrite (non_value_contained q e V) in H. discriminate. Qed.
@@ -194,6 +194,16 @@ Proof.
   destruct (r_final r (stores r)) as [vs|e]; reflexivity.
 Qed.
 
+Lemma finalize_all_fst g rules stores :
+  g = true \/ (forall r, In r rules -> is_okb (r_final r (stores r)) = true) ->
+  fst (finalize_all g rules stores) = Ok (fins_of rules stores).
+Proof.
+  intros [->|H]; [apply finalize_all_guarded|]. rewrite (finalize_all_safe g rules stores H). reflexivity.
+Qed.
+
+Lemma fin_guard_ideal q fn : q_finalize_unguarded q = false -> fin_guard q fn = true.
+Proof. intros H. unfold fin_guard. rewrite H. reflexivity. Qed.
+
 Lemma finalize_all_fail rules stores :
   (exists r, In r rules /\ is_okb (r_final r (stores r)) = false) ->
   exists e l, finalize_all false rules stores = (Fail e, l).
@@ -220,14 +230,28 @@ Proof.
   rewrite app_nil_r. reflexivity.
 Qed.
 
-Theorem run_ideal_exact q rules files :
-  q_value_error_escapes q = false -> final_safe rules files ->
-  run q rules files = (spec_run rules files, spec_log rules files).
+(* outcome and findings only: a failing finalize() is allowed when the finalize loop is guarded *)
+Theorem run_exact_fst q rules files :
+  all_contained q rules files -> fin_guard q "lint_files" = true \/ final_safe rules files ->
+  fst (run q rules files) = spec_run rules files.
 Proof.
-  intros H F. apply run_exact; [|exact F]. intros r p e _ _ _. apply ideal_contains_all. exact H.
+  intros C G. unfold run. rewrite (lint_all_contained q rules files C).
+  pose proof (finalize_all_fst (fin_guard q "lint_files") rules (fun r => store_of r files) G) as E.
+  destruct (finalize_all (fin_guard q "lint_files") rules (fun r => store_of r files)) as [[fs|e] l]; cbn [fst] in E; [|discriminate].
+  injection E as ->. reflexivity.
 Qed.
 
-(* the faithful model (any quirk vector) is exact as long as no rule fails with an exception of the ValueError family *)
+(* with both flags off the model meets the specification on EVERY input: no hypothesis about finalize() is left *)
+Theorem run_ideal_exact q rules files :
+  q_value_error_escapes q = false -> q_finalize_unguarded q = false ->
+  fst (run q rules files) = spec_run rules files.
+Proof.
+  intros H1 H2. apply run_exact_fst; [|left; apply fin_guard_ideal; exact H2].
+  intros r p e _ _ _. apply ideal_contains_all. exact H1.
+Qed.
+
+(* the faithful model (any quirk vector) is exact as long as no rule fails with an exception of the ValueError family
+   and no finalize() fails *)
 Theorem run_actual_partial q rules files :
   (forall r p e, In r rules -> In p files -> r_res r p = Fail e -> value_family e = false) ->
   final_safe rules files ->
@@ -246,12 +270,13 @@ Proof.
 Qed.
 
 Theorem finalize_failure_crashes q rules files :
+  q_finalize_unguarded q = true ->
   all_contained q rules files ->
   (exists r, In r rules /\ is_okb (r_final r (store_of r files)) = false) ->
   exists e', fst (run q rules files) = Crashed e'.
 Proof.
-  intros C H. unfold run. rewrite (lint_all_contained q rules files C).
-  destruct sequential_shape as (_ & G & _). rewrite G.
+  intros Q C H. unfold run. rewrite (lint_all_contained q rules files C).
+  unfold fin_guard. rewrite Q. destruct sequential_shape as (_ & G & _). rewrite G.
   destruct (finalize_all_fail rules (fun r => store_of r files) H) as (e' & l & L). rewrite L. exists e'. reflexivity.
 Qed.
 
@@ -261,7 +286,7 @@ Theorem crash_has_cause q rules files e :
   \/ (exists r, In r rules /\ is_okb (r_final r (store_of r files)) = false).
 Proof.
   unfold run. destruct (lint_all q rules files) as [[cs|e1] l1] eqn:L.
-  - destruct (finalize_all (guard_of "lint_files") rules (fun r => store_of r files)) as [[fs|e2] l2] eqn:Fz; [discriminate|].
+  - destruct (finalize_all (fin_guard q "lint_files") rules (fun r => store_of r files)) as [[fs|e2] l2] eqn:Fz; [discriminate|].
     intros _. right.
     destruct (List.existsb (fun r => negb (is_okb (r_final r (store_of r files)))) rules) eqn:X.
     + apply existsb_exists in X. destruct X as (r & I & N). exists r. split; [exact I|].
@@ -350,6 +375,27 @@ Proof. intros H r p e I I' E. apply (H r p e I); [|exact E]. apply filter_In in 
    fails - the cells (file, rule, reported violations) of all other files are exactly those of the run without
    them; the cross-file findings (finalize) are the same provided the removed files left no evidence in the
    stores, and by store_filter_iff that condition is also necessary for the stores to coincide. *)
+Theorem sibling_isolation_gen q rules files (bad : string -> bool) :
+  all_contained q rules files ->
+  fin_guard q "lint_files" = true \/ (final_safe rules files /\ final_safe rules (filter (fun p => negb (bad p)) files)) ->
+  exists cells fins cells' fins',
+    fst (run q rules files) = Completed cells fins /\
+    fst (run q rules (filter (fun p => negb (bad p)) files)) = Completed cells' fins' /\
+    filter (fun c => negb (bad (cell_path c))) cells = cells' /\
+    cells = spec_cells rules files /\
+    ((forall r p, In r rules -> In p files -> bad p = true -> r_contrib r p = []) -> fins = fins').
+Proof.
+  intros C G.
+  exists (spec_cells rules files), (spec_fins rules files),
+         (spec_cells rules (filter (fun p => negb (bad p)) files)), (spec_fins rules (filter (fun p => negb (bad p)) files)).
+  rewrite (run_exact_fst q rules files C) by (destruct G as [G|[G _]]; [left|right]; exact G).
+  rewrite (run_exact_fst q rules _ (all_contained_filter q rules files _ C)) by (destruct G as [G|[_ G]]; [left|right]; exact G).
+  repeat split.
+  - apply (spec_cells_filter rules files (fun p => negb (bad p))).
+  - intros H. unfold spec_fins. apply map_ext_in. intros r I.
+    rewrite (proj2 (store_filter_iff r files bad)); [reflexivity|]. intros p Ip B. exact (H r p I Ip B).
+Qed.
+
 Theorem sibling_isolation q rules files (bad : string -> bool) :
   all_contained q rules files ->
   final_safe rules files -> final_safe rules (filter (fun p => negb (bad p)) files) ->
@@ -359,21 +405,11 @@ Theorem sibling_isolation q rules files (bad : string -> bool) :
     filter (fun c => negb (bad (cell_path c))) cells = cells' /\
     cells = spec_cells rules files /\
     ((forall r p, In r rules -> In p files -> bad p = true -> r_contrib r p = []) -> fins = fins').
-Proof.
-  intros C F F'.
-  exists (spec_cells rules files), (spec_fins rules files),
-         (spec_cells rules (filter (fun p => negb (bad p)) files)), (spec_fins rules (filter (fun p => negb (bad p)) files)).
-  rewrite (run_exact q rules files C F).
-  rewrite (run_exact q rules _ (all_contained_filter q rules files _ C) F').
-  repeat split.
-  - apply (spec_cells_filter rules files (fun p => negb (bad p))).
-  - intros H. unfold spec_fins. apply map_ext_in. intros r I.
-    rewrite (proj2 (store_filter_iff r files bad)); [reflexivity|]. intros p Ip B. exact (H r p I Ip B).
-Qed.
+Proof. intros C F F'. apply sibling_isolation_gen; [exact C|right; split; assumption]. Qed.
 
+(* Main theorem at full strength: both flags off, NO further hypothesis - rules are arbitrary partial functions, finalize() may fail *)
 Theorem sibling_isolation_ideal q rules files (bad : string -> bool) :
-  q_value_error_escapes q = false ->
-  final_safe rules files -> final_safe rules (filter (fun p => negb (bad p)) files) ->
+  q_value_error_escapes q = false -> q_finalize_unguarded q = false ->
   exists cells fins cells' fins',
     fst (run q rules files) = Completed cells fins /\
     fst (run q rules (filter (fun p => negb (bad p)) files)) = Completed cells' fins' /\
@@ -381,8 +417,15 @@ Theorem sibling_isolation_ideal q rules files (bad : string -> bool) :
     cells = spec_cells rules files /\
     ((forall r p, In r rules -> In p files -> bad p = true -> r_contrib r p = []) -> fins = fins').
 Proof.
-  intros H. apply sibling_isolation. intros r p e _ _ _. apply ideal_contains_all. exact H.
+  intros H1 H2. apply sibling_isolation_gen; [|left; apply fin_guard_ideal; exact H2].
+  intros r p e _ _ _. apply ideal_contains_all. exact H1.
 Qed.
+
+(* a failing finalize() costs, when guarded, exactly that rule's cross-file findings *)
+Theorem guarded_finalize_failure_is_local q rules files :
+  q_value_error_escapes q = false -> q_finalize_unguarded q = false ->
+  exists cells, fst (run q rules files) = Completed cells (map (fun r => (r_id r, ok_or_nil (r_final r (store_of r files)))) rules).
+Proof. intros H1 H2. exists (spec_cells rules files). exact (run_ideal_exact q rules files H1 H2). Qed.
 
 (* a failing pair costs exactly its own cell: every other rule on the same file is unaffected *)
 Theorem failing_pair_costs_its_own_cell q rules files r p :
@@ -391,7 +434,7 @@ Theorem failing_pair_costs_its_own_cell q rules files r p :
     In (p, r_id r, ok_or_nil (r_res r p)) cells.
 Proof.
   intros C F I Ip. exists (spec_cells rules files), (spec_fins rules files).
-  rewrite (run_exact q rules files C F). split; [reflexivity|].
+  rewrite (run_exact_fst q rules files C (or_intror F)). split; [reflexivity|].
   unfold spec_cells. apply in_flat_map. exists p. split; [exact Ip|]. apply in_map_iff. exists r. auto.
 Qed.
 
@@ -419,8 +462,8 @@ Theorem completed_exit_0_or_1 cells fins : exit_code (Completed cells fins) <= 1
 Proof. unfold exit_code. destruct (flat_viols cells fins); lia. Qed.
 
 Theorem ideal_exit_0_or_1 q rules files :
-  q_value_error_escapes q = false -> final_safe rules files -> exit_code (fst (run q rules files)) <= 1.
-Proof. intros H F. rewrite (run_ideal_exact q rules files H F). apply completed_exit_0_or_1. Qed.
+  q_value_error_escapes q = false -> q_finalize_unguarded q = false -> exit_code (fst (run q rules files)) <= 1.
+Proof. intros H1 H2. rewrite (run_ideal_exact q rules files H1 H2). apply completed_exit_0_or_1. Qed.
 
 Theorem crash_exit_is_2 e : exit_code (Crashed e) = 2.
 Proof. reflexivity. Qed.
@@ -483,15 +526,16 @@ Proof. intros H r p e I. apply (H r p e). apply filter_In in I. tauto. Qed.
 (* With the parent re-running the cross-file rules, the parallel run is exact under the same conditions as the
    sequential one: same cells, same cross-file findings. *)
 Theorem run_par_exact q rules files :
-  all_contained q rules files -> final_safe rules files -> (forall r, In r rules -> wf_rule r) ->
+  all_contained q rules files -> fin_guard q "_finalize_rules" = true \/ final_safe rules files -> (forall r, In r rules -> wf_rule r) ->
   fst (run_par q rules files) = spec_run rules files.
 Proof.
-  intros C F W. unfold run_par. rewrite (par_all_contained q rules files C). rewrite par_collects.
+  intros C G W. unfold run_par. rewrite (par_all_contained q rules files C). rewrite par_collects.
   rewrite (lint_all_contained q (filter r_cross rules) files (all_contained_cross q rules files C)).
-  rewrite (finalize_all_safe _ rules (fun r => par_store r files)).
-  - cbn [fst]. unfold spec_run, spec_fins, fins_of. f_equal. apply map_ext_in. intros r I.
-    rewrite (par_store_eq r files (W r I)). reflexivity.
-  - intros r I. rewrite (par_store_eq r files (W r I)). exact (F r I).
+  assert (fst (finalize_all (fin_guard q "_finalize_rules") rules (fun r => par_store r files)) = Ok (fins_of rules (fun r => par_store r files))) as E.
+  { apply finalize_all_fst. destruct G as [G|F]; [left; exact G|right]. intros r I. rewrite (par_store_eq r files (W r I)). exact (F r I). }
+  destruct (finalize_all (fin_guard q "_finalize_rules") rules (fun r => par_store r files)) as [[fs|e] l]; cbn [fst] in E; [|discriminate].
+  injection E as ->. cbn [fst]. unfold spec_run, spec_fins, fins_of. f_equal. apply map_ext_in. intros r I.
+  rewrite (par_store_eq r files (W r I)). reflexivity.
 Qed.
 
 (* every failing pair is logged by the worker, and once more by the parent for the cross-file rules *)
